@@ -15,7 +15,7 @@ EXPLANATION = ('R11.2: for every well-formed class of the Unicode standard (all 
 ASSUMPTIONS = ['interval precision: a defect that permutes values inside one class without changing its bounds is not visible',
                'raw-pointer instantiations stand for all iterator types']
 TRUSTED = ['clang 14 AST + constant evaluation', 'bsfacts', 'bsv/dtab.py + bsv/interval.py', 'spec/unicode_spec.py']
-UNITS = ['w_convert.cpp']
+UNITS = ['w_convert.cpp', 'csv_readers.cpp']
 
 WIDTH = {'char': 1, 'char16_t': 2, 'char32_t': 4, 'wchar_t': 4}
 # (in width, out width) -> codec reached from Transcode (Unicode encoding forms); same width = plain copy
@@ -42,6 +42,8 @@ def callees(f):
 
 
 def run(prog, rep):
+    from rules import encoded_reader
+    encoded_reader.check(prog, rep, ids={'R13.8': 'R11.4'})      # the stream reader rejects text only for a decoding error, never for a split sequence
     rep.rule('R11.2', 'well-formed classes: emitted code-unit intervals and consumed length equal the Unicode standard (Table 3-6/3-7, D91) '
                       'for every class', floor=500)
     rep.rule('R11.1', 'width dispatch of Transcode / Utf16 / Utf32 and endianness adapters of the LE/BE traits', floor=20)
